@@ -4,13 +4,17 @@ import sys
 
 def make(seed, tier, kind, index):
     from sim import gen as GEN
+    if kind == "cornerstone":
+        return GEN.make_c05_sweep(seed, tier, index)
     return GEN.make_c05_run(seed, tier, index)
 
 
 def sizes(tier):
+    from sim import gen as GEN
+    n_sweep = len(GEN.c05_census(tier)) + 1      # one constructor-clause sweep per census class (+ the probe class)
     if tier == "quick":
-        return 0, 900, 1500.0
-    return 0, 12000, 3 * 3600.0
+        return n_sweep, 900, 1500.0
+    return n_sweep, 12000, 3 * 3600.0
 
 
 def extra(agg):
